@@ -16,6 +16,7 @@
    dealloc still to come). *)
 From Coq Require Import ZArith NArith List Bool Lia.
 Import ListNotations.
+From Cffi Require Export C27.Keys C27.Gen.
 
 Definition shape := (N * Z)%type.      (* kind: 0 prim 1 void 2 pointer 3 array 4 function 5 aggregate;
                                           Z: primitive id / array length / ellipsis+abi / aggregate tag *)
@@ -91,6 +92,34 @@ Definition has_handle (s : state) (i : N) : bool := existsb (fun p => N.eqb (snd
 Definition has_parent (h : list tobj) (i : N) : bool :=
   existsb (fun o => negb (t_zombie o) && nmem i (t_kids o)) h.
 
+(* array-to-pointer decay of a function argument: an array type's only child is its pointer type *)
+Definition decay (h : list tobj) (i : N) : N :=
+  match find_obj i h with
+  | Some o => if N.eqb (fst (t_shape o)) 3 then hd i (t_kids o) else i
+  | None => i
+  end.
+
+(* the children a new type REFERENCES (and so keeps alive), given what the caller passed:
+   new_function_type stores the result and the decayed arguments in fct->ct_stuff; pointer and array
+   types store exactly what they are given (ct_itemdescr / ct_stuff) *)
+Definition ref_kids (h : list tobj) (sh : shape) (kids : list N) : list N :=
+  if N.eqb (fst sh) 4
+  then match kids with res :: args => res :: map (decay h) args | [] => [] end
+  else kids.
+
+(* the objects whose ADDRESSES enter the key — read from the regenerated key recipes (C27/Gen.v):
+   the function key is built either from the stored (decayed) arguments or from the caller's tuple;
+   pointer and array keys must be [item] and [pointer; length] (see keys_as_modelled) *)
+Definition func_key_stored : bool :=
+  existsb (ksrc_eqb KArgsStored) function_key && negb (existsb (ksrc_eqb KArgsRaw) function_key).
+Definition keys_as_modelled : bool :=
+  klist_eqb primitive_key [KStatic] && klist_eqb void_key [KStatic] &&
+  klist_eqb pointer_key [KItem] && klist_eqb array_key [KPtr; KLen] &&
+  (klist_eqb function_key [KResult; KFlags; KNargs; KArgsStored]
+   || klist_eqb function_key [KResult; KFlags; KNargs; KArgsRaw]).
+Definition key_kids (h : list tobj) (sh : shape) (kids : list N) : list N :=
+  if N.eqb (fst sh) 4 && negb func_key_stored then kids else ref_kids h sh kids.
+
 Inductive op :=
 | New (h : N) (sh : shape) (kids : list N) (a : N)
       (* build a type of this shape over these child objects; the allocator puts the candidate at a *)
@@ -115,9 +144,13 @@ Definition set_kids (i : N) (kids : list N) (o : tobj) : tobj :=
 
 Definition step (s : state) (o : op) : state * out :=
   match o with
-  | New h sh kids a =>
+  | New h sh kids0 a =>
+      (* kids0: what the caller passes; kids: what the new type references (arrays decayed for a function
+         type).  The third test never fires on a reachable state (Proofs.ref_kids_alive). *)
+      let kids := ref_kids (heap s) sh kids0 in
       if match hlookup h (handles s) with Some _ => true | None => false end
-         || negb (forallb (alive_nz (heap s)) kids) || occupied (heap s) a
+         || negb (forallb (alive_nz (heap s)) kids0) || negb (forallb (alive_nz (heap s)) kids)
+         || occupied (heap s) a
       then (s, OBad)
       else
         let n := next_oid s in
@@ -127,7 +160,7 @@ Definition step (s : state) (o : op) : state * out :=
                          t_zombie := false |} :: heap s;
               cache := cache s; next_oid := N.succ n; handles := (h, n) :: handles s |}, ORet n)
         else
-          let k := key_of (heap s) sh kids in
+          let k := key_of (heap s) sh (key_kids (heap s) sh kids0) in
           match cache_get k (cache s) with
           | Some i =>
               if alive_nz (heap s) i
@@ -258,13 +291,6 @@ Fixpoint first_handle_of (i : N) (except : N) (l : list (N * N)) : option N :=
       end
   end.
 
-(* array-to-pointer decay of a function argument: an array type's only child is its pointer type *)
-Definition decay (h : list tobj) (i : N) : N :=
-  match find_obj i h with
-  | Some o => if N.eqb (fst (t_shape o)) 3 then hd i (t_kids o) else i
-  | None => i
-  end.
-
 Inductive hout := HSame (h : N) | HFresh | HOk | HBad.
 
 Definition hstep (s : state) (o : hop) : state * hout :=
@@ -272,17 +298,8 @@ Definition hstep (s : state) (o : hop) : state * hout :=
   | HNew h sh khs =>
       match opt_map_handles s khs with
       | None => (s, HBad)
-      | Some kids0 =>
-          (* new_function_type (:6101 ff.) first converts array arguments into pointers
-             (o = o->ct_stuff, the array's pointer type) and stores THOSE in fct->ct_stuff; the key is
-             built from fct->ct_stuff, i.e. from the decayed argument objects the function type itself
-             references and keeps alive.  [New] is always given the children the new type references. *)
-          let kids := if N.eqb (fst sh) 4
-                      then match kids0 with
-                           | res :: args => res :: map (decay (heap s)) args
-                           | [] => []
-                           end
-                      else kids0 in
+      | Some kids =>
+          (* (the array-to-pointer decay of function arguments happens inside New: ref_kids) *)
           let a := lowest_free (heap s) 1 (S (length (heap s))) in
           match step s (New h sh kids a) with
           | (s1, ORet i) =>
